@@ -84,7 +84,7 @@ def run_case(case, res=None):
         fail('prebuild-exception:' + exc_bucket(e), repr(e))
     generated = {}
     for c in fx.callables:
-        key = c.kind + ':' + c.name
+        key = c.key
         t0 = fx.source[key]
         try:
             t1 = fx.generated_text(c)
@@ -113,7 +113,7 @@ def run_case(case, res=None):
         fx2 = prebuildfix.Fixture(case['tape'], case['order'], texts=generated)
         fx2.prebuild()
         for c in fx2.callables:
-            key = c.kind + ':' + c.name
+            key = c.key
             t2 = fx2.generated_text(c)
             if t2 != generated[key]:
                 fail('second-generation-differs', 'home %s\n--- first ---\n%s\n--- second ---\n%s' % (key, generated[key], t2))
@@ -169,7 +169,7 @@ def check_text(tape, text, case):
     key = 'function:f0'
     try:
         fx = prebuildfix.Fixture(tape, texts={key: text})
-        c = [c for c in fx.callables if c.kind + ':' + c.name == key][0]
+        c = [c for c in fx.callables if c.key == key][0]
         fx.prebuild()
         t1 = fx.generated_text(c)
     except Exception as e:
@@ -191,7 +191,7 @@ def check_text(tape, text, case):
                 w, d, text.split('\n')[k], t1.split('\n')[k] if k < len(t1.split('\n')) else ''))
     try:
         fx2 = prebuildfix.Fixture(tape, texts={key: t1})
-        c2 = [c for c in fx2.callables if c.kind + ':' + c.name == key][0]
+        c2 = [c for c in fx2.callables if c.key == key][0]
         fx2.prebuild()
         t2 = fx2.generated_text(c2)
     except Exception as e:
